@@ -242,3 +242,7 @@ def build(chk):
     from . import C16, C20
     chk.include(C16, r"^wall/", "uses:C16")
     chk.include(C20, r".", "uses:C20")          # the mesh contract (faces, centres, dx() == vol() == face spacing)
+    # the integrator half of the statement: every integrator updates Q by linear combinations of dt * residual (normal forms)
+    from . import C05, C06
+    chk.include(C05, r".", "uses:C05")
+    chk.include(C06, r"^size\(n=2,neq=[12]\)/|^fd-step", "uses:C06")
